@@ -210,15 +210,17 @@ fn inline_helpers(orig: &SourceFile, func: &str, under_contract: &dyn Fn(&str) -
         fn visit_item(&mut self, _: &'ast syn::Item) {}
     }
     /// the first call (in source order) that can be inlined: (call span, helper name, argument spans, is_method)
-    struct FindCall<'a> { src: &'a SourceFile, names: &'a dyn Fn(&str) -> bool, hit: Option<((usize, usize), String, Vec<(usize, usize)>, bool)> }
+    struct FindCall<'a> { src: &'a SourceFile, names: &'a dyn Fn(&str) -> bool, hit: Option<((usize, usize), String, Vec<(usize, usize)>, bool)>, recv: Option<(usize, usize)> }
     impl<'a, 'ast> Visit<'ast> for FindCall<'a> {
         fn visit_expr_method_call(&mut self, m: &'ast syn::ExprMethodCall) {
             visit::visit_expr_method_call(self, m);
             if self.hit.is_some() { return; }
             let recv_is_self = matches!(&*m.receiver, Expr::Path(p) if p.path.is_ident("self"));
             let name = m.method.to_string();
-            if recv_is_self && m.turbofish.is_none() && (self.names)(&name) {
+            if m.turbofish.is_none() && (self.names)(&name) {
                 self.hit = Some((self.src.range(m.span()), name, m.args.iter().map(|a| self.src.range(a.span())).collect(), true));
+                // a receiver other than `self` is bound to a name of its own and the helper's `self` is renamed to it
+                self.recv = if recv_is_self { None } else { Some(self.src.range(m.receiver.span())) };
             }
         }
         fn visit_expr_call(&mut self, c: &'ast syn::ExprCall) {
@@ -266,8 +268,9 @@ fn inline_helpers(orig: &SourceFile, func: &str, under_contract: &dyn Fn(&str) -
                 _ => false,
             }
         };
-        let mut fc = FindCall { src, names: &fit, hit: None };
+        let mut fc = FindCall { src, names: &fit, hit: None, recv: None };
         fc.visit_block(found[0].block);
+        let recv_span = fc.recv;
         let ((cs, ce), name, args, is_method) = match fc.hit { Some(h) => h, None => break };
         let h = &helpers.get(&name).unwrap()[0];
         let has_recv = h.sig.inputs.iter().any(|a| matches!(a, syn::FnArg::Receiver(_)));
@@ -278,9 +281,25 @@ fn inline_helpers(orig: &SourceFile, func: &str, under_contract: &dyn Fn(&str) -
         if !is_method && has_recv { let (a0s, a0e) = args[0]; if src.text[a0s..a0e].trim() != "self" { break; } }
         if explicit.len() != params.len() { break; }
         let mut t = String::from("{ ");
+        // `R.h(..)` with a receiver other than `self`: only for `&self` / `&mut self` helpers of a non-generic type, `self` becomes `self__`
+        let mut self_alias = false;
+        if let Some((rs, re)) = recv_span {
+            let recv_kind = h.sig.inputs.iter().find_map(|a| match a { syn::FnArg::Receiver(r) => Some((r.reference.is_some(), r.mutability.is_some())), _ => None });
+            match (recv_kind, &h.impl_ty) {
+                (Some((true, m)), Some(ty)) if !h.block.to_token_stream().to_string().contains("Self") => {
+                    t.push_str(&format!("let self__ : &{}{} = &{}{}; ", if m { "mut " } else { "" }, ty, if m { "mut " } else { "" }, norm_ws(&src.text[rs..re])));
+                    self_alias = true;
+                }
+                _ => break,
+            }
+        }
         for (k, (s, e)) in explicit.iter().enumerate() { t.push_str(&format!("let arg{}__ = {}; ", k, norm_ws(&src.text[*s..*e]))); }
         for (k, (p, m)) in params.iter().enumerate() { t.push_str(&format!("let {}{} = arg{}__; ", if *m { "mut " } else { "" }, p, k)); }
-        for st in &h.block.stmts { t.push_str(&st.to_token_stream().to_string()); t.push(' '); }
+        for st in &h.block.stmts {
+            let st_txt = st.to_token_stream().to_string();
+            t.push_str(&if self_alias { replace_word(&st_txt, "self", "self__") } else { st_txt });
+            t.push(' ');
+        }
         t.push('}');
         // the call may span several lines: keep the line structure of the file (the replacement goes on the first line of the call)
         let newlines = src.text[cs..ce].matches('\n').count();
